@@ -1199,3 +1199,35 @@ func V1Spend(cs consensus.State, e types.SiacoinElement, who, to int, tag int) t
 
 // CopyV1 deep-copies a v1 transaction through its encoding.
 func CopyV1(t types.Transaction) types.Transaction { return copyV1Txns([]types.Transaction{t})[0] }
+
+// V1SpendMany builds a signed v1 transaction of actor `who` spending all the
+// given elements to one output of actor `to`, paying `fee`.
+func V1SpendMany(cs consensus.State, elems []types.SiacoinElement, who, to int, fee types.Currency, tag int) types.Transaction {
+	var sum types.Currency
+	txn := types.Transaction{ArbitraryData: [][]byte{[]byte(fmt.Sprintf("NonSia-many-%d", tag))}}
+	signers := map[types.Hash256]int{}
+	for _, e := range elems {
+		txn.SiacoinInputs = append(txn.SiacoinInputs, types.SiacoinInput{ParentID: e.ID, UnlockConditions: Actors[who].UC})
+		sum = sum.Add(e.SiacoinOutput.Value)
+		signers[types.Hash256(e.ID)] = who
+	}
+	txn.SiacoinOutputs = []types.SiacoinOutput{{Address: Actors[to].Addr, Value: sum.Sub(fee)}}
+	if !fee.IsZero() {
+		txn.MinerFees = []types.Currency{fee}
+	}
+	signV1(cs, &txn, signers)
+	return txn
+}
+
+// V2SpendMany is the v2 counterpart (elements carry their proofs as of cs).
+func V2SpendMany(cs consensus.State, elems []types.SiacoinElement, to int, fee types.Currency, tag int) types.V2Transaction {
+	var sum types.Currency
+	txn := types.V2Transaction{ArbitraryData: []byte(fmt.Sprintf("many-%d", tag)), MinerFee: fee}
+	for _, e := range elems {
+		txn.SiacoinInputs = append(txn.SiacoinInputs, types.V2SiacoinInput{Parent: e.Copy()})
+		sum = sum.Add(e.SiacoinOutput.Value)
+	}
+	txn.SiacoinOutputs = []types.SiacoinOutput{{Address: Actors[to].Addr, Value: sum.Sub(fee)}}
+	SignV2(cs, &txn)
+	return txn
+}
